@@ -139,7 +139,7 @@ pub async fn read_directories_async(
 fn range_end_inc(range: &impl RangeBounds<u64>) -> Option<u64> {
     match range.end_bound() {
         std::ops::Bound::Included(val) => Some(*val),
-        std::ops::Bound::Excluded(val) => Some(*val - 1),
+        std::ops::Bound::Excluded(val) => Some(val.saturating_sub(1)),
         std::ops::Bound::Unbounded => None,
     }
 }
